@@ -523,6 +523,8 @@ def real_streams(ctx):
 
 
 def run(ctx):
+    from rv import suiterun
+    suiterun.for_check(ctx, PROPERTY, ['cleanups'])
     rng = ctx.rng
     jobs = []
     told_to_close(ctx)
